@@ -9,14 +9,14 @@ fn used(vm: &VM) -> u64 {
     vm.heap.bytes_allocated() as u64 + vm.manual_heap.bytes_allocated() as u64
 }
 
-/// VM holding two strings and one 2-slot manual buffer, `room` bytes from its limit (room symbolic, 0..=64)
+/// VM holding two strings and one 2-slot manual buffer, `room` bytes from its limit (room symbolic, 0..=48)
 fn near_limit_vm() -> (VM, u64) {
     let mut vm = verif_vm();
     vm.heap.alloc_string("ab");
     vm.heap.alloc_string("c");
     vm.manual_heap.alloc(2, 0).unwrap();
     let room: u64 = kani::any();
-    kani::assume(room <= 64);
+    kani::assume(room <= 48); // at most 6 manual slots can be granted: vec![null; n] stays inside unwind 7
     vm.config.max_heap_bytes = used(&vm) + room;
     (vm, room)
 }
@@ -102,7 +102,7 @@ vm_harness! {
             Ok(_) => assert!(used(&vm) == before + charge && used(&vm) <= vm.config.max_heap_bytes),
             Err(e) => assert!(oom(e) && used(&vm) == before && charge > room),
         }
-        kani::cover!(r.is_ok() && n == 4, "REQ granted");
+        kani::cover!(r.is_ok() && n == 3, "REQ granted");
         kani::cover!(r.is_err(), "REQ refused");
         std::mem::forget(r);
         std::mem::forget(vm);
